@@ -433,6 +433,10 @@ func slowGenBankOriginParser(length int) pars.Parser {
 			extent += len(prefix)
 
 			for j := 0; j < 60 && i+j < length; j += 10 {
+				if len(q) <= extent {
+					pos.Byte += extent
+					return pars.NewError("unexpected end of line", pos)
+				}
 				if q[extent] != spaceByte {
 					pos.Byte += extent
 					return pars.NewError("expected whitespace", pos)
@@ -440,6 +444,10 @@ func slowGenBankOriginParser(length int) pars.Parser {
 				extent++
 
 				for k := 0; k < 10 && i+j+k < length; k++ {
+					if len(q) <= extent {
+						pos.Byte += extent
+						return pars.NewError("unexpected end of line", pos)
+					}
 					if !isBaseCharacter(q[extent]) {
 						pos.Byte += extent
 						return pars.NewError("expected character", pos)
